@@ -467,6 +467,7 @@ class Tr:
     def block(self, blk, env, expected):
         env = dict(env)
         lets = []
+        pre_start = len(self.pre)
         for s in blk.stmts:
             if s.kind == 'assert':
                 c, _ = self.expr(s.cond, env, 'bool')
@@ -496,6 +497,14 @@ class Tr:
         r, rty = self.expr(blk.result, env, expected)
         for name, term in reversed(lets):
             r = f'(let {name} := {term}; {r})'
+        # side conditions met while translating this block (shift amounts, asserts of inner
+        # blocks) may mention its lets: close them over the lets (re-binding is harmless)
+        for i in range(pre_start, len(self.pre)):
+            c = self.pre[i]
+            for name, term in reversed(lets):
+                if re.search(r'(?<![A-Za-z0-9_])' + re.escape(name) + r'(?![A-Za-z0-9_\'])', c):
+                    c = f'(let {name} := {term}; {c})'
+            self.pre[i] = c
         return r, rty
 
 
